@@ -311,6 +311,10 @@ pub fn replay(path: &str) -> i32 {
             return 2;
         }
     };
+    let mut e = e;
+    if clause == "result-depends-on-call-history" {
+        crate::tess::history_differential(&mut e, &check, &st);
+    }
     if std::env::var("VERIF_DUMP").is_ok() {
         dump_state(&st);
     }
